@@ -1,6 +1,6 @@
 ---------------------------- MODULE MCCodeBuffer ----------------------------
 (* Exhaustive small scope for the buffer builtins of C28 + generator.
-   Every initial state is one (buffer, dot): all buffers of length <= N over six token kinds
+   Every state is one (buffer, dot): all buffers of length <= N over six token kinds
        1 letter (alnum, w1)   2 punct (punct, w1)   3 space (space, w1)   4 newline (newline, w0)
        5 wide (alnum, w2)     6 combining (punct, w0)
    with a position-dependent real code point per kind (so that swapped/deleted runes are told
@@ -44,7 +44,7 @@ ActSeq == <<"move-dot-left", "move-dot-right", "move-dot-left-word", "move-dot-r
             "kill-small-word-left", "kill-small-word-right", "kill-alnum-word-left",
             "kill-alnum-word-right", "kill-line-left", "kill-line-right",
             "transpose-rune", "transpose-word", "transpose-small-word", "transpose-alnum-word">>
-ActSeqComplete == {ActSeq[i] : i \in 1..Len(ActSeq)} = Builtins
+ASSUME ActSeqComplete == {ActSeq[i] : i \in 1..Len(ActSeq)} = Builtins
 (* compact prescription per builtin: <<enum, unspec, outs>>; an outcome is <<m, dot>> \o runes.
    For kill-X the outcomes are keyed by m = the dot move-dot-X may produce on the same state: the
    executor looks up the entry of the REAL move-dot-X result, so that kill-X is compared with the
